@@ -17,6 +17,12 @@ import vsim_agent  # installed (inactive) by sitecustomize because VSIM_ZYGOTE i
 from jade.cli.jade import cli as jade_cli
 from jade.cli.jade_internal import cli as jade_internal_cli
 
+try:
+    _attached = vsim_agent.attach_inner_monitors()
+except Exception as _e:  # advisory only
+    _attached = [f"(inner monitors not attached: {_e!r})"]
+print("inner monitors:", _attached, flush=True)
+
 ZSOCK = sys.argv[1]
 if os.path.exists(ZSOCK):
     os.remove(ZSOCK)
